@@ -363,15 +363,22 @@ def drive_surface(recipe):
         systems.append((np.array(mol["els"]), np.array(mol["pos"], dtype=float) / 100.0, mol["pos"],
                         np.array(env["els"]), np.array(env["pos"], dtype=float).reshape(-1, 3) / 100.0, env["pos"]))
     fields, bbs = [], []
+
+    def documented_box(els_, pos_):
+        # the sampling box as documented: every atom of the molecule +- (its van der Waals radius + 3.8 A), computed here - the
+        # domain guard ("the level set stays inside the box") must not follow the library if it moves or shrinks its box
+        from chmpy.core.element import vdw_radii
+        ext = np.asarray(vdw_radii(np.asarray(els_)), dtype=float)[:, None] + 3.8
+        p_ = np.asarray(pos_, dtype=float)
+        return (np.min(p_ - ext, axis=0).astype(np.float32), np.max(p_ + ext, axis=0).astype(np.float32))
     for (oe, op, _oi, ne, npos, _ni) in systems:
         if kind == "rho":
             d = PromoleculeDensity((oe, op))
             fields.append(d.rho)
-            bbs.append(d.bb())
         else:
             s = StockholderWeight.from_arrays(oe, op, ne, npos)
             fields.append(lambda pts, s=s: s.weights(np.asarray(pts, dtype=np.float32)))
-            bbs.append(s.bb())
+        bbs.append(documented_box(oe, op))
     out = []
     residuals = [[] for _ in systems]
     excs = [""] * len(systems)
@@ -506,6 +513,8 @@ def surface_recipes(ctx):
     for ax in range(3):
         pos = [[1 + (130 * i if a == ax else 0) for a in range(3)] for i in range(6 + ax % 2)]
         mols.append(("rod-%s" % "xyz"[ax], {"els": [6] * len(pos), "pos": pos}))
+    # a lopsided atom set: a compact group and one atom 13 A away (the centroid is far from the middle of the bounding box)
+    mols.append(("lopsided", {"els": [6, 6, 6, 6, 6, 8], "pos": [[1, 1, 1], [155, 1, 1], [1, 155, 1], [1, 1, 155], [-153, -153, -153], [1301, 1, 1]]}))
     out = []
     for mi, (name, m) in enumerate(mols):
         for api in ("surface.promolecule_density_isosurface", "Molecule.promolecule_density_isosurface"):
